@@ -57,12 +57,19 @@ def fac(U, dim):
     return si.to_float(si.factor(D, U, dim))
 
 
-def num(v, U, dim, explicit):
-    """bare number in U, or an explicit 'value unit' string in U."""
-    def one(x):
-        y = x * fac(U, dim)
-        return "%r %s" % (y, si.units_string(U, dim)) if explicit else y
+def num(v, U, dim, explicit, mixed=None):
+    """bare number in U, or an explicit 'value unit' string in U.  `mixed` (per-environment dictionaries only): the entries
+    of ONE dictionary are written in different units -- "all-explicit": entry k is an explicit string in rot(U, k);
+    "bare+explicit": the first entry is a bare number in U, entry k >= 1 an explicit string in rot(U, k + 1) (the documented mix
+    of numbers and "value units" strings in one dictionary)."""
+    def one(x, V=U, expl=explicit):
+        y = x * fac(V, dim)
+        return "%r %s" % (y, si.units_string(V, dim)) if expl else y
     if isinstance(v, dict):
+        if mixed == "all-explicit":
+            return {k: one(x, rot(U, i), True) for i, (k, x) in enumerate(v.items())}
+        if mixed == "bare+explicit":
+            return {k: (one(x, U, False) if i == 0 else one(x, rot(U, i + 1), True)) for i, (k, x) in enumerate(v.items())}
         return {k: one(x) for k, x in v.items()}
     return one(v)
 
@@ -91,7 +98,8 @@ def build_dict(gtype, level, U, default_state=False, missing=(), hist=False):
     def sysdict(X):
         return partial_dict(tuple(X), missing) if missing else uq.sysdict(X)
     ud = sysdict(U)
-    explicit = (level == "explicit")
+    explicit = (level in ("explicit", "explicit-mixed"))
+    mixed = {"explicit-mixed": "all-explicit", "species-mixed": "bare+explicit"}.get(level)
     # unit system governing each part
     g = {"system": D, "network": D, "space": D, "species": [D, D, D], "reaction": [D, D, D, D], "node": [D, D, D], "edge": [D, D]}
     decl = {}
@@ -109,7 +117,7 @@ def build_dict(gtype, level, U, default_state=False, missing=(), hist=False):
         g["node"] = [U] * 3
         g["edge"] = [U] * 2
         decl["space"] = ud
-    elif level == "species":
+    elif level in ("species", "species-mixed"):
         g["species"] = [U, rot(U), D]
     elif level == "reaction":
         g["reaction"] = [U, D, rot(U), U]
@@ -117,23 +125,24 @@ def build_dict(gtype, level, U, default_state=False, missing=(), hist=False):
         g["node"] = [U, D, rot(U)]
     elif level == "edge":
         g["edge"] = [rot(U), U]
-    elif level == "explicit":
-        # every number is an explicit quantity in U; the declarations around it are another system
+    elif explicit:
+        # every number is an explicit quantity in U (explicit-mixed: the entries of a per-environment dictionary in U, rot(U), ...); the declarations around it are another system
         W = rot(U, 2)
         for k in g:
             g[k] = U if not isinstance(g[k], list) else [U] * len(g[k])
         decl = {"system": sysdict(W), "network": sysdict(rot(W)), "space": sysdict(rot(W, 2))}
     sp = []
     for i, s in enumerate(BASE["species"]):
-        d = {"label": s["label"], "D": num(s["D"], g["species"][i], DIM["D"], explicit),
-             "density": num(s["density"], g["species"][i], DIM["density"], explicit)}
-        if level == "species" and (g["species"][i] != D or (hist and U == D and i == 0)):
+        d = {"label": s["label"], "D": num(s["D"], g["species"][i], DIM["D"], explicit, mixed),
+             "density": num(s["density"], g["species"][i], DIM["density"], explicit, mixed)}
+        if level in ("species", "species-mixed") and (g["species"][i] != D or (hist and U == D and i == 0)):
             d[UKEYS[i % 4]] = sysdict(g["species"][i])
         sp.append(d)
     rx = []
     for i, r in enumerate(BASE["reactions"]):
-        d = {"eq": r["eq"], "k+": num(r["kf"], g["reaction"][i], kdim(r["orders"][0]), explicit),
-             "k-": num(r["kr"], g["reaction"][i], kdim(r["orders"][1]), explicit)}
+        rmixed = mixed if level == "explicit-mixed" else None
+        d = {"eq": r["eq"], "k+": num(r["kf"], g["reaction"][i], kdim(r["orders"][0]), explicit, rmixed),
+             "k-": num(r["kr"], g["reaction"][i], kdim(r["orders"][1]), explicit, rmixed)}
         if level == "reaction" and (g["reaction"][i] != D or (hist and U == D and i in (0, 3))):
             d[UKEYS[(i + 1) % 4]] = sysdict(g["reaction"][i])
         rx.append(d)
@@ -502,12 +511,17 @@ def check_case(case):
 def gen_cases(tier):
     systems = si.systems36() if tier == "quick" else si.ALL_SYSTEMS
     rate_set = set(si.systems36()) if tier == "thorough" else set(si.systems36()[::3])
-    levels = {"grid": ["system", "network", "space", "species", "reaction", "explicit", "script"],
-              "graph": ["system", "network", "space", "species", "reaction", "node", "edge", "explicit", "script"]}
+    levels = {"grid": ["system", "network", "space", "species", "reaction", "explicit", "explicit-mixed", "species-mixed", "script"],
+              "graph": ["system", "network", "space", "species", "reaction", "node", "edge", "explicit", "explicit-mixed",
+                        "species-mixed", "script"]}
+    mixed_levels = ("explicit-mixed", "species-mixed")
     for gtype in ("grid", "graph"):
         for U in systems:
             for level in levels[gtype]:
-                c = {"gtype": gtype, "level": level, "U": list(U), "rate": (U in rate_set and level != "script")}
+                # (the per-environment dictionaries with entries in different units meet in the rate of change of a grid,
+                # where neighbouring cells of different environments are averaged: always evaluated there in quick)
+                rate = level != "script" and (U in rate_set or (tier == "quick" and gtype == "grid" and level in mixed_levels))
+                c = {"gtype": gtype, "level": level, "U": list(U), "rate": rate}
                 yield c
                 if gtype == "grid" and level in ("system", "network", "species", "space", "explicit") and U in rate_set:
                     c4 = dict(c)          # reflecting variant of the grid, also simulated through the coarse-graining path
@@ -610,7 +624,7 @@ def run(ctx):
         core.merge(ctx, r)
         done += job[1] - job[0]
     nsys = 36 if ctx.tier == "quick" else 1100
-    ctx.subspace("%d unit systems x {grid: 7 levels, graph: 9 levels} (+ script variants with explicit time quantities / explicit request list and default t_max): heterogeneous "
+    ctx.subspace("%d unit systems x {grid: 9 levels, graph: 11 levels, incl. per-environment dictionaries whose entries are written in different units (all explicit strings / bare number + explicit strings)} (+ script variants with explicit time quantities / explicit request list and default t_max): heterogeneous "
                  "3-species / 4-reaction (orders 0-3) / 2-environment system on a periodic 3-cell grid and a 3-node graph" % nsys,
                  len(_CASES), done, exhaustive=(done == len(_CASES)))
     ctx.rule("one case per (space type, declaration level, unit system); non-trivial = unit system differs from the default; "
